@@ -56,7 +56,7 @@ CHECKS["C11"] = dict(level="model_checking", design="DESIGN.md §6 C11, §3.1 Va
     note="Only format-checker panics are injected on the real code (the documented invalid-schema panic is explored in the model and by C06's runs). Same trusted base as C04.")
 
 CHECKS["C05"] = dict(level="model_checking", design="DESIGN.md §6 C05, §8",
-    technique="TLC-checked ownership models (ValidatorTree with 2 goroutines, RegexpCache with 3); concurrent drivers on the real code with outcomes compared to alone/fresh references and the merged pool event stream validated by Trace_Pools.tla; Go race detector as access-level observer of the same drivers",
+    technique="TLC-checked ownership models (ValidatorTree with 2 goroutines, RegexpCache with 3, Options with 2 setters and 2 readers incl. two must-fail variants); concurrent drivers on the real code with outcomes compared to alone/fresh references and the merged pool event stream validated by Trace_Pools.tla; Go race detector as access-level observer of the same drivers",
     text="Independence and exclusive ownership are decided by the specification: all interleavings of the pool protocol and the regexp cache are model-checked, and every concurrent execution's pool events "
          "(ordered by tickets taken at the hooks) must satisfy the monitor while every call returns its alone outcome. Data-race freedom is observed by the race detector on the same drivers, with redeemed objects "
          "poisoned so that a use after redeem is deterministic.",
